@@ -258,14 +258,16 @@ Fixpoint probe_chips (info : chip -> option reply) (l : list (chip * Z)) : resul
          end
   end.
 
-Definition system_info (rd : reader) (info : chip -> option reply) : result sysinfo :=
-  bind (p2p_table rd) (fun tbl =>
+Definition system_info_of_table (info : chip -> option reply) (tbl : list (chip * Z)) : result sysinfo :=
   match zmax_list (map (fun ce => fst (fst ce)) (routed tbl)),
         zmax_list (map (fun ce => snd (fst ce)) (routed tbl)) with
   | Some mx, Some my =>
     bind (probe_chips info tbl) (fun chips => Ok (mkSI (mx + 1) (my + 1) chips))
   | _, _ => OtherError                                            (* max() of an empty sequence *)
-  end).
+  end.
+
+Definition system_info (rd : reader) (info : chip -> option reply) : result sysinfo :=
+  bind (p2p_table rd) (system_info_of_table info).
 
 Definition si_get (si : sysinfo) (c : chip) : option chip_info := cassoc c (si_chips si).
 Definition si_has (si : sysinfo) (c : chip) : bool :=
@@ -539,12 +541,7 @@ Fixpoint unpack_fields (data : list Z) (fs : list (string * (string * Z * Z))) :
 (* ProcessorStatus(state as keyword arguments): the values in the order of the namedtuple's fields, each flattened to a list
    of integers (int -> [v], list/tuple -> its elements, str -> its characters).  App names are taken to be
    ASCII (any other byte: outside the model's domain, reported as OtherError). *)
-Definition processor_status (rd : reader) (p : Z) : result (list (list Z)) :=
-  bind (read_sv_int rd sv_vcpu_base) (fun base =>
-  let data := rd (base + vcpu_size * p) vcpu_size in
-  match unpack_fields data vcpu_fields with
-  | None => OtherError
-  | Some st0 =>
+Definition status_assemble (st0 : list (string * sval)) : result (list (list Z)) :=
     match pop_numbered "r" (zrange status_n_registers) st0 with
     | None => OtherError
     | Some (regs, st1) =>
@@ -586,7 +583,14 @@ Definition processor_status (rd : reader) (p : Z) : result (list (list Z)) :=
         | _, _, _ => OtherError
         end
       end
-    end
+    end.
+
+Definition processor_status (rd : reader) (p : Z) : result (list (list Z)) :=
+  bind (read_sv_int rd sv_vcpu_base) (fun base =>
+  let data := rd (base + vcpu_size * p) vcpu_size in
+  match unpack_fields data vcpu_fields with
+  | None => OtherError
+  | Some st0 => status_assemble st0
   end).
 
 (* ------------------------------------------------------------------------------------------------ *)
@@ -675,6 +679,108 @@ Definition controller_system_info (sv : reply) (rd : reader) (info : chip -> opt
   bind (decode_sver sv) (fun _ => system_info rd info).
 
 (* ------------------------------------------------------------------------------------------------ *)
+(* the struct layout as a parameter                                                                   *)
+(* MachineController(structs=...): every probing function resolves the fields it reads through the
+   controller's own `structs` (_get_struct_field_and_address: address = struct.base + field.offset, format
+   "<" + length * pack_chars).  [layout] holds what the probing functions look up there; the functions
+   above are the instances for the packaged boot/sark.struct (lemmas *_packaged, by computation). *)
+
+Record layout := mkLayout {
+  l_sv_base : Z;
+  l_p2p_dims : string * Z * Z;          (* pack_chars, offset, length of sv.p2p_dims *)
+  l_vcpu_base : string * Z * Z;
+  l_iobuf_size : string * Z * Z;
+  l_num_cpus : string * Z * Z;
+  l_vcpu_size : Z;
+  l_vcpu_fields : list (string * (string * Z * Z)) }.
+
+Definition packaged_layout : layout :=
+  mkLayout sv_base sv_p2p_dims sv_vcpu_base sv_iobuf_size sv_num_cpus vcpu_size vcpu_fields.
+
+Definition read_sv_int_L (L : layout) (rd : reader) (f : string * Z * Z) : result Z :=
+  read_int_field rd (l_sv_base L) f.
+
+Definition p2p_table_L (L : layout) (rd : reader) : result (list (chip * Z)) :=
+  bind (read_sv_int_L L rd (l_p2p_dims L)) (fun dims =>
+  let width := p2p_width dims in
+  let height := p2p_height dims in
+  p2p_columns rd height (p2p_col_words height) (zrange width)).
+
+Definition system_info_L (L : layout) (rd : reader) (info : chip -> option reply) : result sysinfo :=
+  bind (p2p_table_L L rd) (system_info_of_table info).
+
+Definition num_working_cores_L (L : layout) (rd : reader) : result Z := read_sv_int_L L rd (l_num_cpus L).
+
+Definition read_vcpu_int_L (L : layout) (rd : reader) (name : string) (p : Z) : result Z :=
+  match sassoc name (l_vcpu_fields L) with
+  | None => OtherError                                             (* KeyError *)
+  | Some (pack, off, len) =>
+    bind (read_sv_int_L L rd (l_vcpu_base L)) (fun base =>
+    let fmt := ("<" ++ pack)%string in
+    match calcsize fmt with
+    | None => OtherError
+    | Some n =>
+      match unpack fmt (rd (base + l_vcpu_size L * p + off) n) with
+      | Some [UInt v] => if len =? 1 then Ok v else OtherError
+      | _ => OtherError
+      end
+    end)
+  end.
+
+Definition get_iobuf_bytes_L (L : layout) (fuel : nat) (rd : reader) (p : Z) : result (list Z) :=
+  bind (read_sv_int_L L rd (l_iobuf_size L)) (fun size =>
+  bind (read_vcpu_int_L L rd "iobuf" p) (fun address =>
+  iobuf_walk fuel rd size address)).
+
+Definition processor_status_L (L : layout) (rd : reader) (p : Z) : result (list (list Z)) :=
+  bind (read_sv_int_L L rd (l_vcpu_base L)) (fun base =>
+  let data := rd (base + l_vcpu_size L * p) (l_vcpu_size L) in
+  match unpack_fields data (l_vcpu_fields L) with
+  | None => OtherError
+  | Some st0 => status_assemble st0
+  end).
+
+(* ------------------------------------------------------------------------------------------------ *)
+(* the controller as an object with a history                                                         *)
+(* What a MachineController remembers between probing calls: the SCP buffer size learnt from the first
+   sver ([None] until then).  Every memory read first makes sure it is known. *)
+
+Definition ctl_state := option Z.
+
+Definition ctl_ensure_length (st : ctl_state) (sv : reply) : result ctl_state :=
+  match st with
+  | Some n => Ok (Some n)
+  | None => bind (decode_sver sv) (fun ci => Ok (Some (co_buffer_size ci)))
+  end.
+
+(* one call of get_system_info on a controller in state [st], talking to a machine whose boot chip answers
+   sver with [sv]: the description and the controller's state afterwards *)
+Definition ctl_system_info (L : layout) (st : ctl_state) (sv : reply) (rd : reader) (info : chip -> option reply)
+  : result (sysinfo * ctl_state) :=
+  bind (ctl_ensure_length st sv) (fun st' =>
+  bind (system_info_L L rd info) (fun si => Ok (si, st'))).
+
+Definition ctl_processor_status (L : layout) (st : ctl_state) (sv : reply) (rd : reader) (p : Z)
+  : result (list (list Z) * ctl_state) :=
+  bind (ctl_ensure_length st sv) (fun st' =>
+  bind (processor_status_L L rd p) (fun r => Ok (r, st'))).
+
+Definition ctl_iobuf_bytes (L : layout) (st : ctl_state) (sv : reply) (fuel : nat) (rd : reader) (p : Z)
+  : result (list Z * ctl_state) :=
+  bind (ctl_ensure_length st sv) (fun st' =>
+  bind (get_iobuf_bytes_L L fuel rd p) (fun r => Ok (r, st'))).
+
+(* other entry points *)
+(* MachineController.get_machine (deprecated): build_machine(self.get_system_info(x, y)) *)
+Definition get_machine_L (L : layout) (rd : reader) (info : chip -> option reply) : result pmachine :=
+  bind (system_info_L L rd info) (fun si => Ok (build_machine si)).
+
+(* get_working_links / get_ip_address: views of get_chip_info *)
+Definition working_links (r : reply) : result (list Z) := bind (decode_info r) (fun ci => Ok (ci_links ci)).
+Definition ip_address (r : reply) : result (option string) :=
+  bind (decode_info r) (fun ci => Ok (if ci_eth_up ci then Some (ci_ip ci) else None)).
+
+(* ------------------------------------------------------------------------------------------------ *)
 (* canonical flat forms, used by the correspondence run to compare with the implementation's output   *)
 
 Definition b2z (b : bool) : Z := if b then 1 else 0.
@@ -733,6 +839,9 @@ Definition hash_mask : Z := 2305843009213693951.      (* 2^61 - 1; masking is fa
 Definition hash_list (l : list Z) : Z := fold_left (fun h v => Z.land (1000003 * h + v + 1) hash_mask) l 7.
 Definition hash_ll (ll : list (list Z)) : Z := hash_list (flat_map (fun l => zlen l :: l) ll).
 Definition hash_lll (lll : list (list (list Z))) : Z := hash_list (map hash_ll lll).
+
+Definition drop_state {A S} (r : result (A * S)) : result A :=
+  match r with Ok (a, _) => Ok a | Failed k => Failed k | OtherError => OtherError | OutOfFuel => OutOfFuel end.
 
 (* result -> option for printing *)
 Definition okopt {A} (r : result A) : option A := match r with Ok a => Some a | _ => None end.
